@@ -232,7 +232,7 @@ impl GridPlacement {
     pub fn into_origin_zero_placement(self, explicit_track_count: u16) -> OriginZeroGridPlacement {
         match self {
             Self::Auto => OriginZeroGridPlacement::Auto,
-            Self::Span(span) => OriginZeroGridPlacement::Span(span),
+            Self::Span(span) => OriginZeroGridPlacement::Span(span.max(1)),
             // Grid line zero is an invalid index, so it gets treated as Auto
             // See: https://developer.mozilla.org/en-US/docs/Web/CSS/grid-row-start#values
             Self::Line(line) => match line.as_i16() {
